@@ -8,6 +8,7 @@ the intersection of the open half-planes of the edges, which *is* the interior e
 polygon is convex (`Spec.Route.Convex`); the clipping theorems need no convexity hypothesis.
 -/
 import AdaptaVerif.Lemmas.RouteGeom
+import AdaptaVerif.Lemmas.VisSoundRect
 import AdaptaVerif.Model.Visibility
 namespace AdaptaVerif.Props.C03
 open AdaptaVerif.Model.Geometry (Pt area2)
@@ -131,5 +132,93 @@ theorem visible_not_sound :
   intro h
   have hu := h true [witnessRect] witnessSrc witnessDst visible_unsound_witness.1
   exact hu 0 (by decide) (by simp) ((segHitsInterior_iff _ _ _).mp visible_unsound_witness.2.2)
+
+
+/-! ### soundness of the naive visibility test away from its weakness
+
+Full statement of the design (`visible_sound_partial`): for every scene of convex polygons and every pair
+(i, j) such that no vertex of a shape lies in the open segment and neither end is strictly inside a
+non-exempt shape, `visible ⇒ ¬ segHitsInterior` for every non-exempt shape.
+
+Proved below:
+* `visible_sound_boundaryChar_partial` — for every shape whose edge list has the boundary
+  characterisation `BoundaryChar` (a point on an edge line and on the inner side of all edges lies on that
+  closed edge; every edge starts where another ends).  This is the whole geometric argument; what is
+  missing for arbitrary convex n-gons is only the derivation of `BoundaryChar` from convexity.
+* `visible_sound_rect_partial` — for axis-parallel rectangles (`BoundaryChar` proved), with the conclusion
+  in terms of the C03 checker `segHitsInterior`.
+Interior-disjointness of the shapes is not needed (the argument is per shape). -/
+
+open AdaptaVerif.Lemmas.VisSound in
+/-- the shapes `firstBlocker` skips for the pair (i, j): those containing a connector endpoint -/
+def exempt (i j : VVert) : List Nat :=
+  (if i.isConn then i.contains else []) ++ (if j.isConn then j.contains else [])
+
+open AdaptaVerif.Lemmas.VisSound in
+theorem visible_shapeBlocks_false (ign : Bool) (shapes : List Poly) (i j : VVert)
+    (hvis : visible ign shapes i j = true) (k : Nat) (hk : k < shapes.length) (hex : k ∉ exempt i j) :
+    shapeBlocks shapes[k] i.pt j.pt = false := by
+  unfold visible at hvis
+  simp only [Bool.and_eq_true, Option.isNone_iff_eq_none] at hvis
+  have hnone := hvis.2
+  unfold firstBlocker at hnone
+  have := firstBlockerFrom_none _ i.pt j.pt shapes 0 hnone k hk (by simpa [exempt] using hex)
+  exact this
+
+open AdaptaVerif.Lemmas.VisSound in
+/-- general form: any shape whose edge list has the boundary characterisation -/
+theorem visible_sound_boundaryChar_partial (ign : Bool) (shapes : List Poly) (i j : VVert)
+    (hvis : visible ign shapes i j = true) (k : Nat) (hk : k < shapes.length) (hex : k ∉ exempt i j)
+    (hB : BoundaryChar (AdaptaVerif.Model.Geometry.edges shapes[k]))
+    (ha : ∃ e ∈ AdaptaVerif.Model.Geometry.edges shapes[k], F e i.pt ≤ 0)
+    (hb : ∃ e ∈ AdaptaVerif.Model.Geometry.edges shapes[k], F e j.pt ≤ 0)
+    (hnov : ∀ e ∈ AdaptaVerif.Model.Geometry.edges shapes[k], ∀ t : Rat, 0 < t → t < 1 →
+      lerp i.pt j.pt t ≠ e.1 ∧ lerp i.pt j.pt t ≠ e.2) :
+    ¬ ∃ t : Rat, 0 ≤ t ∧ t ≤ 1 ∧ ∀ e ∈ AdaptaVerif.Model.Geometry.edges shapes[k], 0 < F e (lerp i.pt j.pt t) := by
+  rintro ⟨t, h0, h1, hm⟩
+  have hf := visible_shapeBlocks_false ign shapes i j hvis k hk hex
+  have ht := shapeBlocksGo_of_interior _ hB i.pt j.pt t h0 h1 hm ha hb hnov
+  unfold shapeBlocks at hf
+  rw [ht] at hf
+  exact Bool.noConfusion hf
+
+open AdaptaVerif.Lemmas.VisSound in
+/-- rectangles: if the naive test of the code calls i–j visible, the segment does not enter any
+    non-exempt rectangle — provided no corner of it lies in the open segment (the known weakness,
+    `visible_unsound_witness`) and neither end is strictly inside it. -/
+theorem visible_sound_rect_partial (ign : Bool) (shapes : List Poly) (i j : VVert)
+    (hvis : visible ign shapes i j = true) (k : Nat) (hk : k < shapes.length) (hex : k ∉ exempt i j)
+    (x0 y0 x1 y1 : Rat) (hx : x0 < x1) (hy : y0 < y1) (hrect : shapes[k] = rectPoly x0 y0 x1 y1)
+    (ha : ¬ StrictlyInside shapes[k] i.pt) (hb : ¬ StrictlyInside shapes[k] j.pt)
+    (hnov : ∀ v ∈ shapes[k], ∀ t : Rat, 0 < t → t < 1 → lerp i.pt j.pt t ≠ v) :
+    segHitsInterior shapes[k] i.pt j.pt = false := by
+  have hf := visible_shapeBlocks_false ign shapes i j hvis k hk hex
+  cases hs : segHitsInterior shapes[k] i.pt j.pt with
+  | false => rfl
+  | true =>
+    exfalso
+    have hhit := (segHitsInterior_iff _ _ _).mp hs
+    rw [hrect] at hhit ha hb hnov hf
+    have := shapeBlocks_rect x0 y0 x1 y1 hx hy i.pt j.pt hhit ha hb hnov
+    rw [this] at hf
+    exact Bool.noConfusion hf
+
+-- non-vacuity: rectangle [1,2]², the pair (0,0)–(3,0) is visible and all hypotheses hold
+example : segHitsInterior witnessRect (⟨0, 0⟩ : Pt) ⟨3, 0⟩ = false := by
+  have hv : visible true [witnessRect] (connVert [witnessRect] ⟨0, 0⟩) (connVert [witnessRect] ⟨3, 0⟩) = true := by
+    decide +kernel
+  refine visible_sound_rect_partial true [witnessRect] (connVert [witnessRect] ⟨0, 0⟩) (connVert [witnessRect] ⟨3, 0⟩)
+    hv 0 (by decide) (by decide +kernel) 1 1 2 2 (by decide +kernel) (by decide +kernel) rfl ?_ ?_ ?_
+  · intro h
+    have := (strictlyInside_rect 1 1 2 2 (by decide +kernel) (by decide +kernel) ⟨0, 0⟩).mp h
+    exact absurd this.1 (by decide +kernel)
+  · intro h
+    have := (strictlyInside_rect 1 1 2 2 (by decide +kernel) (by decide +kernel) ⟨3, 0⟩).mp h
+    exact absurd this.2.2.1 (by decide +kernel)
+  · intro v hv t _ _ h
+    have hy : (lerp (⟨0, 0⟩ : Pt) ⟨3, 0⟩ t).y = v.y := congrArg Pt.y h
+    simp only [lerp, sub_self, mul_zero, add_zero] at hy
+    simp only [List.getElem_cons_zero, witnessRect, rectPoly, List.mem_cons, List.not_mem_nil, or_false] at hv
+    rcases hv with rfl | rfl | rfl | rfl <;> simp at hy
 
 end AdaptaVerif.Props.C03
